@@ -26,6 +26,7 @@ type Req struct {
 
 type Case struct {
 	Cached   bool    `json:"cached"`
+	Both     bool    `json:"both,omitempty"` // a plain AND a cached reporter are configured
 	Shards   uint    `json:"shards"`
 	Threads  [][]Req `json:"threads"`
 	Recorder int     `json:"recorder"` // number of recorder threads on a pre-registered counter
@@ -53,6 +54,7 @@ func genReqs(t *rapid.T, maxOps int) []Req {
 
 func gen(t *rapid.T) Case {
 	c := Case{Cached: rapid.Bool().Draw(t, "cached"), Shards: uint(rapid.SampledFrom([]int{1, 1, 2, 4}).Draw(t, "shards"))}
+	c.Both = rapid.IntRange(0, 5).Draw(t, "both") == 0
 	nt := rapid.IntRange(2, 4).Draw(t, "nthreads")
 	// overlapping requests: threads share a common prefix of requests with high probability
 	common := genReqs(t, 3)
@@ -254,7 +256,9 @@ func run(c Case) (pbt.Outcome, error) {
 	var out pbt.Outcome
 	log := &rec.Log{}
 	opts := tally.ScopeOptions{OmitCardinalityMetrics: true}
-	if c.Cached {
+	if c.Both {
+		opts.Reporter, opts.CachedReporter = &rec.Stats{L: log, Child: 1}, &rec.Cached{L: log, Child: 2}
+	} else if c.Cached {
 		opts.CachedReporter = &rec.Cached{L: log}
 	} else {
 		opts.Reporter = &rec.Stats{L: log}
@@ -351,6 +355,7 @@ func TestSched(t *testing.T) {
 
 type RaceCase struct {
 	Cached   bool    `json:"cached"`
+	Both     bool    `json:"both,omitempty"` // a plain AND a cached reporter are configured
 	Programs [][]Req `json:"programs"`
 	Passes   int     `json:"passes"`
 	Seed     uint64  `json:"seed"`
@@ -359,7 +364,7 @@ type RaceCase struct {
 }
 
 func genRace(t *rapid.T) RaceCase {
-	c := RaceCase{Cached: rapid.Bool().Draw(t, "cached"), Passes: rapid.IntRange(1, 4).Draw(t, "passes"), Seed: rapid.Uint64().Draw(t, "seed"), Snapshot: rapid.Bool().Draw(t, "snapshot"), San: rapid.IntRange(0, 2).Draw(t, "san") == 0}
+	c := RaceCase{Cached: rapid.Bool().Draw(t, "cached"), Passes: rapid.IntRange(1, 4).Draw(t, "passes"), Seed: rapid.Uint64().Draw(t, "seed"), Snapshot: rapid.Bool().Draw(t, "snapshot"), San: rapid.IntRange(0, 2).Draw(t, "san") == 0, Both: rapid.IntRange(0, 5).Draw(t, "both") == 0}
 	n := rapid.IntRange(8, 16).Draw(t, "ngoroutines")
 	common := genReqs(t, 4)
 	for i := 0; i < n; i++ {
@@ -374,7 +379,9 @@ func runRace(c RaceCase) (pbt.Outcome, error) {
 	var errs pbt.Errs
 	log := &rec.Log{}
 	opts := tally.ScopeOptions{OmitCardinalityMetrics: false}
-	if c.Cached {
+	if c.Both {
+		opts.Reporter, opts.CachedReporter = &rec.Stats{L: log, Child: 1}, &rec.Cached{L: log, Child: 2}
+	} else if c.Cached {
 		opts.CachedReporter = &rec.Cached{L: log}
 	} else {
 		opts.Reporter = &rec.Stats{L: log}
